@@ -21,18 +21,31 @@ type Mix struct {
 	Send, Dep, Recv, Replay, Replace, RepDep, Admin, Ledger, Multi int
 	DepValid, RecvBroken, ReplaceValid, AdminHolder, FaultPct   int
 	Rollback                                                    int // percent of steps that start a rollback probe
+	Restart                                                     int // percent of steps that are a genesis round trip
 	AdminTypes                                                  []string
 }
 
 // replayOp re-submits an earlier successful receive with one aspect varied.
 func replayOp(g *sim.G, label string) *sim.Op {
-	var cands []*sim.Step
+	var cands, failedOnes []*sim.Step
 	for _, s := range g.W.Steps {
-		if s.Op.Kind == "tx" && s.OK() && len(s.Msgs) == 1 {
+		if s.Op.Kind == "tx" && len(s.Msgs) == 1 {
 			if _, ok := s.Msgs[0].(*types.MsgReceiveMessage); ok {
-				cands = append(cands, s)
+				if s.OK() {
+					cands = append(cands, s)
+				} else if s.Exp != nil && s.Exp.Conds["P2-attestation"] {
+					failedOnes = append(failedOnes, s)
+				}
 			}
 		}
+	}
+	// the very same bytes of a receive that was validly attested but failed for another reason
+	// (and was rolled back), after whatever happened since
+	if len(failedOnes) > 0 && g.Pct(label+"/retryfailed", 35) {
+		s := sim.Pick(g, label+"/failed", failedOnes)
+		orig := s.Msgs[0].(*types.MsgReceiveMessage)
+		op := sim.TxOp("retry", &types.MsgReceiveMessage{From: orig.From, Message: append([]byte{}, orig.Message...), Attestation: append([]byte{}, orig.Attestation...)})
+		return op.WithMeta("vary", "retry-failed").WithMeta("of", fmt.Sprint(s.Idx))
 	}
 	if len(cands) == 0 {
 		return g.RecvOp(label+"/fresh", 0)
@@ -135,6 +148,9 @@ func queueOps(g *sim.G, ops ...*sim.Op) {
 func (m Mix) next(g *sim.G) *sim.Op {
 	if op := queuedOp(g); op != nil {
 		return op
+	}
+	if m.Restart > 0 && len(g.W.Steps) > 0 && g.Pct("restart", m.Restart) {
+		return &sim.Op{Kind: "restart", Label: "restart"}
 	}
 	if m.Rollback > 0 && g.Pct("rollbackprobe", m.Rollback) {
 		ops := rollbackProbe(g, "rb")
@@ -340,9 +356,11 @@ func (c *c02) Summary(w *sim.World) (string, []string) {
 }
 
 var C02 = register(&HistProp{ID: "C02",
-	Genesis: func(t *rapid.T) *sim.GenSpec { return sim.DrawGenesis(t, sim.GenOpts{UsedInGen: true, NoPause: true}) },
+	Genesis: func(t *rapid.T) *sim.GenSpec {
+		return sim.DrawGenesis(t, sim.GenOpts{UsedInGen: true, NoPause: true, Decoys: true})
+	},
 	Next: func(g *sim.G, i int) *sim.Op {
-		return Mix{Recv: 8, Replay: 7, Admin: 3, Send: 1, Multi: 1, RecvBroken: 35, AdminHolder: 85,
+		return Mix{Recv: 8, Replay: 7, Admin: 3, Send: 1, Multi: 1, RecvBroken: 35, AdminHolder: 85, Restart: 3,
 			AdminTypes: []string{"PauseBurningAndMinting", "UnpauseBurningAndMinting", "PauseSendingAndReceivingMessages", "UnpauseSendingAndReceivingMessages",
 				"EnableAttester", "DisableAttester", "UpdateSignatureThreshold", "LinkTokenPair", "UnlinkTokenPair", "AddRemoteTokenMessenger", "RemoveRemoteTokenMessenger"}}.next(g)
 	},
@@ -492,9 +510,9 @@ var recvAdmin = []string{"PauseBurningAndMinting", "UnpauseBurningAndMinting", "
 	"EnableAttester", "DisableAttester", "UpdateSignatureThreshold", "LinkTokenPair", "UnlinkTokenPair", "AddRemoteTokenMessenger", "RemoveRemoteTokenMessenger"}
 
 var C03 = register(&HistProp{ID: "C03",
-	Genesis: func(t *rapid.T) *sim.GenSpec { return sim.DrawGenesis(t, sim.GenOpts{UsedInGen: true}) },
+	Genesis: func(t *rapid.T) *sim.GenSpec { return sim.DrawGenesis(t, sim.GenOpts{UsedInGen: true, Decoys: true}) },
 	Next: func(g *sim.G, i int) *sim.Op {
-		return Mix{Recv: 14, Replay: 2, Admin: 4, Ledger: 2, RecvBroken: 65, AdminHolder: 90, FaultPct: 5, AdminTypes: recvAdmin}.next(g)
+		return Mix{Recv: 14, Replay: 4, Admin: 4, Ledger: 2, RecvBroken: 65, AdminHolder: 90, FaultPct: 5, AdminTypes: recvAdmin}.next(g)
 	},
 	MinOps: 3, MaxOps: 25,
 	New: func() Checker {
